@@ -394,6 +394,34 @@ def shrink(case):
             yield [[r[0], r[1][:i] + r[1][i + 1:]] + r[2:], ca, sf, wc]
 
 
+# ---------------------------------------------------------------- the source-level tie (tools/py2coq_c05.py)
+
+
+def extra_obligations(tier):
+    """send_http_start and send_http_body of baize/asgi/helper.py (the single place that builds the ASGI response messages),
+    BaseResponse.list_headers of baize/responses.py, Response.__call__ and SmallResponse.__call__ of
+    baize/asgi/responses.py and Response.__call__ of baize/wsgi/responses.py are translated, one by one, from the source in BAIZE_REPO as it is now (coroutines into the monad
+    of C05/PyLib.v, statement by statement: `await send(m)` = srv_send m, a dict display = dict_lit, d["k"] = v = dict_set,
+    `headers is not None` = a match on the option; list_headers into map / ++), and coqc re-checks, per function, the part
+    of C05/Translated.v about it against the fresh definitions: for every status, header list or None, body, flag and send
+    budget each helper runs as one send of the model's message (same outcome, same entries, read by the harness's send()
+    as Start st (hs or []) / Body b more) and, from the translated definition itself, the start message has type
+    http.response.start, the status given and a "headers" key iff headers were given, the body message exactly the bytes
+    and flag given; list_headers is the items, then one set-cookie pair per cookie (the model's list_headers); the two
+    __call__ send, for every base, body, media type, charset and send fault point, exactly the events and outcome of
+    asgi_run (RPlain b) / asgi_run (RSmall b body media charset); Response.__call__ of baize/wsgi/responses.py calls
+    start_response exactly once (StatusStringMapping[status], the model's header list) and returns one empty chunk:
+    wsgi_full (RPlain b).  C05/PyLib.v's dict is compared with the interpreter's.
+    One obligation per function; a source the translator refuses is not applicable (None) and takes with it only the
+    functions that call it."""
+    import importlib.util
+    import os
+    spec = importlib.util.spec_from_file_location("py2coq_c05", os.path.join(core.VERIF, "tools", "py2coq_c05.py"))
+    py2coq_c05 = importlib.util.module_from_spec(spec)
+    spec.loader.exec_module(py2coq_c05)
+    return py2coq_c05.obligations(core.REPO, core.VERIF)
+
+
 if __name__ == "__main__":
     import sys
     core.main(sys.modules[__name__])
